@@ -210,6 +210,8 @@ def _odf_item_def(c, sp, tab, lb, attr, skip):
     return [ODF_ITEM(c, sp, tab, lb, attr, skip) == cc(body, TAIL(c)), z3.Implies(TAIL_NONE(c), TAIL(c) == lit(""))]
 
 
+# trim on M: idempotent, and a blank at either end is what it removes
+define(T.SQTRIM, lambda m: [T.SQTRIM(T.SQTRIM(m)) == T.SQTRIM(m), T.SQTRIM(cc(" ", m)) == T.SQTRIM(m), T.SQTRIM(cc(m, " ")) == T.SQTRIM(m)], aux=True)
 define(T.REP, lambda s_, n: [z3.Implies(n == 1, T.REP(s_, n) == s_)], aux=True)       # x * 1 == x
 define(ODF_TEXT, _odf_text_def)
 define(ODF_KIDS, _odf_kids_def)
@@ -1037,6 +1039,137 @@ def xls_contracts():
 #   skip_depth == 0          ->  handle_data(d) appends d at the insertion point, and nowhere else
 # (The class invariant and the region semantics proper are C17's obligations; heap model reused from contracts/C17.py.)
 # =====================================================================================
+def epub_roles():
+    """{role: attribute name} of _XhtmlTextExtractor, read off the data flow of its handlers: the list that the end-tag
+    handler joins is the cell buffer, the list that receives the joined text is the row, the string that handle_data extends
+    is the title, the other list handle_data appends to is the running text; the flags are the attributes that guard these."""
+    import ast
+    from pyvc import loader
+    C = _C17
+    mod = loader.module(C.EPUB)
+    hd, he = mod.functions.get(f"{C.ECLS}.handle_data"), mod.functions.get(f"{C.ECLS}.handle_endtag")
+    if hd is None or he is None:
+        raise X.Unsupported("epub handlers not found")
+    self_attr = lambda e: e.attr if isinstance(e, ast.Attribute) and isinstance(e.value, ast.Name) and e.value.id == "self" else None
+
+    def reach(node, depth=2):
+        """Nodes of `node` and of the methods of the same class it calls through self (helpers executed in place)."""
+        for x in ast.walk(node):
+            yield x
+            if depth and isinstance(x, ast.Call) and self_attr(x.func):
+                callee = mod.functions.get(f"{C.ECLS}.{x.func.attr}")
+                if callee is not None:
+                    yield from reach(callee, depth - 1)
+    is_app = lambda x: isinstance(x, ast.Call) and isinstance(x.func, ast.Attribute) and x.func.attr == "append" and x.args and self_attr(x.func.value)
+    joined = {self_attr(x.args[0]) for x in reach(he) if isinstance(x, ast.Call) and isinstance(x.func, ast.Attribute) and x.func.attr == "join" and x.args} - {None}
+    # the row receives a computed text (a local or a call result), not a constant and not another buffer of the parser
+    rows = {self_attr(x.func.value) for x in reach(he) if is_app(x) and not isinstance(x.args[0], ast.Constant) and not self_attr(x.args[0])}
+    data_sinks = {self_attr(x.func.value) for x in reach(hd) if is_app(x) and isinstance(x.args[0], ast.Name)}
+    titles = {self_attr(x.target) for x in reach(hd) if isinstance(x, ast.AugAssign)} - {None}
+    if len(joined) != 1 or len(rows) != 1 or len(titles) != 1 or len(data_sinks - joined) != 1 or not (joined <= data_sinks):
+        raise X.Unsupported(f"epub parser roles not recognised: joined={sorted(joined)} rows={sorted(rows)} titles={sorted(titles)} sinks={sorted(data_sinks)}")
+    cell, row, title, text = next(iter(joined)), next(iter(rows)), next(iter(titles)), next(iter(data_sinks - joined))
+
+    def guard_of(fn, hit):
+        for n in reach(fn):
+            if isinstance(n, ast.If) and self_attr(n.test) and any(hit(x) for b in n.body for x in reach(b)):
+                return self_attr(n.test)
+        return None
+    in_cell = guard_of(hd, lambda x: is_app(x) and self_attr(x.func.value) == cell)
+    in_title = guard_of(hd, lambda x: isinstance(x, ast.AugAssign) and self_attr(x.target) == title)
+    in_table = guard_of(he, lambda x: isinstance(x, ast.Call) and isinstance(x.func, ast.Attribute) and x.func.attr == "join")
+    if not (in_cell and in_title and in_table):
+        raise X.Unsupported("epub parser flags not recognised")
+    return {"cell": cell, "row": row, "title": title, "text": text, "in_cell": in_cell, "in_title": in_title, "in_table": in_table}
+
+
+def epub_walker_contracts(reg, P_STR, P_ATTRS):
+    C = _C17
+    try:
+        R = epub_roles()
+    except X.Unsupported:
+        R = None
+    str_lists = {R["cell"], R["row"], R["text"]} if R else set()
+
+    def self_maker():
+        def mk(ex, st, name):
+            per_field = []
+            for f, ann, val in C.init_fields(C.EPUB, C.ECLS, ex.module.repo):
+                if f in str_lists:
+                    per_field.append((f, [(None, v) for (_c, v) in p_strlist().make(ex, st, f"{name}.{f}")]))
+                elif isinstance(val, __import__("ast").List):
+                    per_field.append((f, [(None, VUnk(f"{name}.{f}"))]))
+                else:
+                    per_field.append((f, C.scalar_alts(ex, st, f"{name}.{f}", ann, val)))
+            from pyvc.state import HeapObj
+            return [(z3.And(cs) if cs else None, VRef(st.alloc(HeapObj("obj", d, C.ECLS, False), ex.refs))) for cs, d in C.product(per_field)]
+        return Maker(mk, desc=C.ECLS)
+
+    def fld(st, c, f):
+        return st.obj(c.args["self"].ref).data[f]
+
+    def e_untouched(c):
+        sd = fld(c.entry, c, "skip_depth")
+        return z3.Implies(sd.t > 0, C.frame(c, C.skip_fields(C.EPUB, C.ECLS, c.ex.module.repo)))
+
+    def sink(st, c, role):
+        v = fld(st, c, R[role])
+        return _sl(st, v)
+
+    def data_once(c):
+        """not skipping: the datum is appended to exactly one sink -- the title while inside <title>, else the open table
+        cell, else the running text -- and the other sinks keep their content."""
+        if R is None:
+            raise X.Unsupported("roles")
+        d = c.args["data"].t
+        sd = fld(c.entry, c, "skip_depth").t
+        in_title, in_cell = fld(c.entry, c, R["in_title"]).t, fld(c.entry, c, R["in_cell"]).t
+        t0, t1 = fld(c.entry, c, R["title"]).t, fld(c.st, c, R["title"]).t
+        same = lambda role: z3.And(sink(c.st, c, role)[0] == sink(c.entry, c, role)[0], sink(c.st, c, role)[1] == sink(c.entry, c, role)[1])
+        grew = lambda role: z3.And(sink(c.st, c, role)[0] == sink(c.entry, c, role)[0] + 1, sink(c.st, c, role)[1] == cc(sink(c.entry, c, role)[1], d),
+                                   sink(c.st, c, role)[2] == X.SQ_cat(sink(c.entry, c, role)[2], lit(" "), SQ(d)))
+        return z3.Implies(sd <= 0, z3.If(in_title, z3.And(t1 == cc(t0, d), same("cell"), same("text")),
+                                         z3.If(in_cell, z3.And(t1 == t0, grew("cell"), same("text")), z3.And(t1 == t0, same("cell"), grew("text")))))
+
+    def closing_cell(c):
+        tag = C.LOWER(c.args["tag"].t)
+        return z3.And(fld(c.entry, c, "skip_depth").t <= 0, fld(c.entry, c, R["in_table"]).t, z3.Or(tag == lit("td"), tag == lit("th")),
+                      tag != lit("title"), tag != lit("table"))
+
+    def cell_nw(c):
+        """</td>: the row gains one cell whose text is the buffered data -- nothing lost, duplicated, invented."""
+        if R is None:
+            raise X.Unsupported("roles")
+        (n0, c0, _l0), (n1, c1, _l1) = sink(c.entry, c, "row"), sink(c.st, c, "row")
+        return z3.Implies(closing_cell(c), z3.And(n1 == n0 + 1, NW(c1) == cc(NW(c0), NW(sink(c.entry, c, "cell")[1]))))
+
+    def cell_sq(c):
+        """</td>: the buffered data chunks stay separated by whitespace in the cell text.  (The buffer does not record which
+        chunks a block / line-break boundary separates, so every chunk boundary must be whitespace.)  This clause depends on
+        how the parser represents a cell; a `sat` is therefore confirmed natively (epub.tables) before it counts."""
+        if R is None:
+            raise X.Unsupported("roles")
+        c.st.assume(X.ABSTRACTED)
+        (_n0, _c0, l0), (_n1, _c1, l1) = sink(c.entry, c, "row"), sink(c.st, c, "row")
+        return z3.Implies(closing_cell(c), l1 == X.SQ_cat(l0, lit(" "), T.SQTRIM(sink(c.entry, c, "cell")[2])))
+
+    out = []
+    norm = find_fn(C.EPUB, f"{C.ECLS}._normalize_ws", mentions=["split", "join"], nparams=1)
+    out.append(FnContract(target=f"{C.EPUB}::{norm}", params=[("self", Maker(lambda ex, st, n: VUnk(n), desc="receiver (static method)")), ("value", P_STR)], assumed=True,
+                          returns=lambda c: VStr(T.STRIP(T.WSSUB(c.args["value"].t))),
+                          note="' '.join(v.split()) == strip(collapse whitespace runs to one blank)  (assumed model of str.split / join)"))
+    for name, extra in (("handle_starttag", [("tag", P_STR), ("attrs", P_ATTRS)]), ("handle_endtag", [("tag", P_STR)]), ("handle_data", [("data", P_STR)])):
+        ens = [("inside-removed-markup-text-sinks-and-layout-state-untouched", X.robust(e_untouched))]
+        if name == "handle_data":
+            ens.append(("visible-data-stored-exactly-once-in-the-sink-of-its-context", X.robust(data_once)))
+        if name == "handle_endtag":
+            ens.append(("closed-cell-holds-the-buffered-data", X.robust(cell_nw)))
+            ens.append(("buffered-chunks-stay-separated-in-the-cell-text", X.robust(cell_sq)))          # last: marks the path (see cell_sq)
+        out.append(FnContract(target=f"{C.EPUB}::{C.ECLS}.{name}", params=[("self", self_maker())] + extra, ensures=ens, modifies=("self",),
+                              raises=[Raises("Exception", sub=True)]))
+    return out
+
+
 def builder_contracts(reg):
     C = _C17
     reg.ext_models["str.lower"] = C.m_lower
@@ -1087,15 +1220,9 @@ def builder_contracts(reg):
         out.append(FnContract(target=f"{HTML}::_HtmlTreeBuilder.{name}", params=[("self", C.html_self())] + extra, requires=req,
                               ensures=ens, modifies=("self",)))
 
-    # EPUB chapter walker (same removed-markup discipline, text sinks instead of a tree)
-    def e_untouched(c):
-        sd = c.entry.obj(c.args["self"].ref).data.get("skip_depth")
-        if not isinstance(sd, VInt):
-            return z3.BoolVal(False)
-        return z3.Implies(sd.t > 0, C.frame(c, C.skip_fields(C.EPUB, C.ECLS, c.ex.module.repo)))
-    for name, extra in (("handle_starttag", [("tag", P_STR), ("attrs", P_ATTRS)]), ("handle_endtag", [("tag", P_STR)]), ("handle_data", [("data", P_STR)])):
-        out.append(FnContract(target=f"{C.EPUB}::{C.ECLS}.{name}", params=[("self", C.epub_self())] + extra,
-                              ensures=[("inside-removed-markup-text-sinks-and-layout-state-untouched", X.robust(e_untouched))], modifies=("self",)))
+    # EPUB chapter walker: removed-markup discipline, and where visible data goes (running text / title / open table cell;
+    # table cells are documented through iterate_tables()).  The parser's fields are found by the role they play.
+    out += epub_walker_contracts(reg, P_STR, P_ATTRS)
     return out
 
 
@@ -1324,6 +1451,9 @@ FUNC_OF_CHECK = {
     "odp.slide": "odp_extractor.py::_extract_slide",
     "html.source": "html_extractor.py::read_html",
     "rtf.source": "rtf_extractor.py::read_rtf",
+    "pptx.shapes": "pptx_extractor.py::read_pptx",
+    "epub.tables": "epub_extractor.py::read_epub.iterate_tables",
+    "odp.tables": "odp_extractor.py::read_odp.iterate_tables",
     "epub.source": "epub_extractor.py::read_epub",
 }
 
@@ -1472,12 +1602,104 @@ def fragment_obligations(repo, tier):
         r2 = pptx_fragment(repo, reg, uni, pre2)
     except Exception as e:  # noqa
         r2 = {"obligations": _unknown(pre2, PPTX_BLOCK_IDS, f"{type(e).__name__}: {e}", f"{PPTX}::_process_slide_from_context"), "functions": []}
-    for r, pfx, ids, fn in ((r1, pre, ODP_BLOCK_IDS, f"{ODP}::_extract_slide"), (r2, pre2, PPTX_BLOCK_IDS, f"{PPTX}::_process_slide_from_context")):
+    pre3 = "C02/ods_extractor.py::_extract_sheet/block#"
+    try:
+        r3 = ods_fragment(repo, reg, uni, pre3)
+    except Exception as e:  # noqa
+        r3 = {"obligations": _unknown(pre3, ODS_BLOCK_IDS, f"{type(e).__name__}: {e}", f"{ODS}::_extract_sheet"), "functions": []}
+    for r, pfx, ids, fn in ((r1, pre, ODP_BLOCK_IDS, f"{ODP}::_extract_slide"), (r2, pre2, PPTX_BLOCK_IDS, f"{PPTX}::_process_slide_from_context"),
+                            (r3, pre3, ODS_BLOCK_IDS, f"{ODS}::_extract_sheet")):
         have = {o["id"] for o in r["obligations"]}
         r["obligations"] += _unknown(pfx, [l for l in ids if pfx + l not in have], "fragment produced no verification condition for this clause", fn)
         obls += r["obligations"]
         fns += r.get("functions", [])
     return {"obligations": obls, "functions": fns, "undecided": undecided}
+
+
+# ods_extractor._extract_sheet: the places that DROP or COLLAPSE cells / rows (trailing-row trimming, large repeats of blank
+# rows / cells).  Statement: nothing visible is lost -- whatever test guards such a place may only hold for rows / cells without
+# display text.  A cell is (typed value, display text) as `_extract_cell_value` returns it (assumed: typed is None exactly when
+# the display text is empty; typed values are int / float / bool / non-empty str -- 0, 0.0 and False are values).
+ODS = "sharepoint2text/parsing/extractors/open_office/ods_extractor.py"
+ODS_BLOCK_IDS = ["dropped-rows-are-blank.trailing-rows", "dropped-rows-are-blank.collapsed-row-repeats", "dropped-rows-are-blank.collapsed-cell-repeats"]
+
+
+def ods_fragment(repo, reg, uni, pre):
+    import ast
+    import builtins
+    import itertools
+    from pyvc import loader, verify
+    from pyvc.state import Frame, State, HeapObj
+    from pyvc.values import VReal
+    fq = f"{ODS}::_extract_sheet"
+    mod = loader.module(ODS, repo)
+    fname = find_fn(ODS, "_extract_sheet", mentions=["raw_rows"], nparams=4) if "_extract_sheet" in mod.functions else \
+        find_fn(ODS, "_extract_sheet", mentions=["number-rows-repeated"], nparams=4)
+    fnode = mod.functions.get(fname)
+    if fnode is None:
+        return {"obligations": _unknown(pre, ODS_BLOCK_IDS, "function not found", fq)}
+
+    def calls(n, attr):
+        return [x for x in ast.walk(n) if isinstance(x, ast.Call) and isinstance(x.func, ast.Attribute) and x.func.attr == attr and isinstance(x.func.value, ast.Name)]
+    sites = {}
+    for n in ast.walk(fnode):
+        if isinstance(n, ast.While) and calls(n, "pop") and len(n.body) == 1:
+            sites.setdefault("trailing-rows", []).append(("rows", n.test, calls(n, "pop")[0].func.value.id, None))
+        if isinstance(n, ast.If) and n.orelse:
+            ap = [x for b in n.body for x in calls(b, "append")]
+            exs = [x for b in n.orelse for x in calls(b, "extend")]
+            if len(ap) == 1 and len(exs) == 1 and ap[0].func.value.id == exs[0].func.value.id:
+                arg = ap[0].args[0]
+                if isinstance(arg, ast.Name):
+                    sites.setdefault("collapsed-row-repeats", []).append(("row", n.test, arg.id, None))
+                else:
+                    tup = [x for x in ast.walk(exs[0].args[0]) if isinstance(x, ast.Tuple) and len(x.elts) == 2 and all(isinstance(e, ast.Name) for e in x.elts)]
+                    if tup:
+                        sites.setdefault("collapsed-cell-repeats", []).append(("cell", n.test, tup[0].elts[0].id, tup[0].elts[1].id))
+    obls = []
+    ex = EXECUTOR(mod, reg, uni)
+    ex.oid_prefix = "C02/ods_extractor.py::_extract_sheet"
+
+    def cell_alts(k):
+        d = z3.String(f"display{k}")
+        return [(NONE, d, d == lit("")), (VInt(z3.Int(f"int{k}")), d, d != lit("")), (VBool(z3.Bool(f"bool{k}")), d, d != lit("")),
+                (VReal(z3.Real(f"float{k}")), d, d != lit("")), (VStr(d), d, d != lit(""))]
+    for label in ("trailing-rows", "collapsed-row-repeats", "collapsed-cell-repeats"):
+        found = sites.get(label, [])
+        if len(found) != 1:
+            obls += _unknown(pre, ["dropped-rows-are-blank." + label], f"{len(found)} site(s) of this shape", fq)
+            continue
+        kind, test, name1, name2 = found[0]
+        free = {x.id for x in ast.walk(test) if isinstance(x, ast.Name) and isinstance(x.ctx, ast.Load)} - {name1, name2}
+        free = {n for n in free if n not in mod.assigns and n not in mod.functions and n not in mod.classes and n not in mod.imports and not hasattr(builtins, n)}
+        widths = (1,) if kind == "cell" else (1, 2)
+        for width in widths:
+            for combo in itertools.product(*[cell_alts(k) for k in range(width)]):
+                st = State()
+                env = {n: VInt(z3.Int(n)) for n in sorted(free)}
+                for (_t, _d, coupling) in combo:
+                    st.assume(coupling)
+                if kind == "cell":
+                    env[name1], env[name2] = combo[0][0], VStr(combo[0][1])
+                else:
+                    row = VRef(st.alloc(HeapObj("list", [VTuple([t, VStr(d)]) for (t, d, _c) in combo], None, False), ex.refs))
+                    env[name1] = row if kind == "row" else VRef(st.alloc(HeapObj("list", [row], None, False), ex.refs))
+                st.frames = [Frame(env, None, fnode)]
+                ex.cur_fn_stack.append(fnode)
+                ex.sinks.append([])
+                try:
+                    res = ex.ev(test, st)
+                except X.Unsupported as e:
+                    return {"obligations": obls + _unknown(pre, ["dropped-rows-are-blank." + label], "OUT-OF-SUBSET " + str(e), fq)}
+                finally:
+                    ex.sinks.pop()
+                    ex.cur_fn_stack.pop()
+                blank = z3.And([d == lit("") for (_t, d, _c) in combo])
+                for (s2, v) in res:
+                    ex.add_vc("block", "dropped-rows-are-blank." + label, s2.pc, z3.Implies(ex.truth(s2, v).t, blank), loc=f"{ODS}:{test.lineno}")
+    for ob in ex.obls.values():
+        obls.append(dict(verify.discharge(ob, None, {}), function=fq))
+    return {"obligations": obls, "functions": [dict(mod.fn_info(fname), obligations=len(obls))]}
 
 
 def odp_fragment(repo, reg, uni, pre):
